@@ -146,6 +146,28 @@ def Cls.ofName? : String → Option Cls
 /-- schedule points of the hooks that are blocking channel operations: nothing may be held there -/
 def blockingChannelPoints : List String := ["cmd.send", "buf.send_shutdown", "worker.recv", "worker.drain", "consumer.recv"]
 
+/-- Which lock classes a thread may hold when it stands at a schedule point (sorted class names). Everything not listed
+    must be reached holding nothing: this is the assumption under which the code between two schedule points is one
+    atomic action of Layer B (only `weight_used` and one expiry shard are owned across points; the `get_ref` guard spans
+    `pool.add`; a DashMap iterator's shard guard spans the estimates of the keys it yields). Validated against the lock
+    log of the real crate on every run. -/
+def heldAtPoint : List (String × List (List String)) := [
+  ("af.estimate", [[], ["kwShard"]]),
+  ("kw.remove", [[], ["ttlShard"]]),
+  ("wu.sub", [[], ["ttlShard"]]),
+  ("store.remove", [[], ["wu"], ["ttlShard", "wu"]]),
+  ("sweep.entry", [["ttlShard"]]),
+  ("pool.add", [[], ["storeShard"]]),
+  ("poll.register", [["ackWaker"]]),
+  ("poll.flag", [["ackWaker"]]),
+  ("poll.status", [["ackWaker"]])
+]
+
+def heldAllowedAt (point : String) (held : List String) : Bool :=
+  match heldAtPoint.find? (fun p => p.1 == point) with
+  | some (_, allowed) => allowed.contains held
+  | none => held.isEmpty
+
 -- ---------- the abstract system the deadlock theorem is about ----------
 
 /-- a concrete lock: class and instance index; ordered lexicographically by (rank, instance) -/
